@@ -77,7 +77,7 @@ var extraPatterns = []patternDef{
 // sweep T: the scheme table over a wider alphabet, one fixed request
 var schemeAlphabetT = []string{"http", "https", "ws", "wss", "HTTP", "", "gopher"}
 
-const hostB, hostT = "b.example.net", "t.example.net"
+const hostB, hostT, hostF = "b.example.net", "t.example.net", "f.example.net"
 
 type patternDef struct {
 	spec  PathSpec
@@ -464,6 +464,18 @@ func buildPlan(thorough bool) *plan {
 			pl.shards = append(pl.shards, shard{"B", b, p, 0, len(queriesX)})
 		}
 	}
+	// sweep F: the other entry points. lo = index of the variant; "field" also takes the extra base paths
+	for vi, v := range variants {
+		nb := len(bases)
+		if v == "field" {
+			nb += len(extraBases)
+		}
+		for b := 0; b < nb; b++ {
+			for p := range patterns {
+				pl.shards = append(pl.shards, shard{"F", b, p, vi, vi + 1})
+			}
+		}
+	}
 	for _, sq := range enum.Seqs(len(schemeAlphabetT), 0, 3) {
 		var l []string
 		for _, i := range sq {
@@ -500,6 +512,18 @@ func (pl *plan) runShard(sh shard, run func(c *Case)) {
 		for _, vm := range pl.smallB[sh.pattern] {
 			for _, qq := range queriesX {
 				run(&Case{Host: hostB, Base: extraBases[sh.base], Pattern: pd.spec, Names: pd.names, Params: vm, Query: qq, Rt: rtP, Op: opP, Repeat: 1})
+			}
+		}
+	case "F":
+		base := PathSpec{}
+		if sh.base < len(bases) {
+			base = bases[sh.base]
+		} else {
+			base = extraBases[sh.base-len(bases)]
+		}
+		for _, vm := range pl.smallB[sh.pattern] {
+			for _, qq := range queriesX {
+				run(&Case{Host: hostF, Base: base, Pattern: pd.spec, Names: pd.names, Params: vm, Query: qq, Rt: rtP, Op: opP, Repeat: 1, Via: variants[sh.lo]})
 			}
 		}
 	case "T":
@@ -618,6 +642,7 @@ func main() {
 	}
 	r.Set("sweepB_base_paths", eb)
 	r.Set("sweepB_extra_pattern", extraPatterns[0].spec.Render())
+	r.Set("sweepF_variants", variants)
 	r.Set("sweepT_scheme_alphabet", fmt.Sprintf("%q", schemeAlphabetT))
 	r.Set("sweepT_scheme_lists", len(pl.listsT))
 	r.Set("hosts", pl.hosts)
@@ -630,5 +655,5 @@ func main() {
 		"static text of base paths and patterns contains no '%', no '.'/'..' segments, no empty segments and no fragment",
 		"histories: the solo result of a case is its result as the only request ever built in a fresh process; Runtime fields are not reassigned between calls",
 	)
-	r.Finish("phase H (histories in one process, serial): "+hist.rule+" Phase E (single cases, in single-threaded worker processes that reuse one Runtime per (host, base path, schemes)): sweep P: every base path x every pattern x every listed parameter map x 2 caller query sets; sweep Q: every base path x every pattern x 1-4 injection-minded parameter maps x every other caller query set; sweep S: every ordered pair of scheme lists (sequences of length 0-3 over http, https, ws, wss) x 3 hosts x 2 base paths x 2 patterns x 2 query sets; sweep X: every base path x every pattern x the same few parameter maps x 6 caller query sets x 7x7 scheme lists on a fourth host; sweep B: 12 more base paths (static query values written with '/', ':' and '.' unescaped: http://h/p, a/b/, x/../y, ./z, a//b, ../../y; base path segments that are empty, '.' or '..', trailing slash) x every pattern and one pattern with such a query x the same few parameter maps x 6 caller query sets; sweep T: every ordered pair (transport, operation) of the 400 scheme lists of length 0-3 over http, https, ws, wss, HTTP, the empty string and gopher, one fixed request. The sweeps are disjoint by construction and no sweep repeats a case, so cases are distinct; an evaluation is one CreateHttpRequest call on the real client (a case with k>=2 parameters is executed k! x repeat times). Non-trivial = a placeholder of the pattern received a value that needs escaping (or is empty, '.' or '..'), or a query name is set at two or more of the three levels, or a scheme list with several entries is offered; a history is non-trivial when two of its steps set the same query name at different levels or with different values, or use the same pattern with different values", !sw.cut && !hist.cut)
+	r.Finish("phase H (histories in one process, serial): "+hist.rule+" Phase E (single cases, in single-threaded worker processes that reuse one Runtime per (host, base path, schemes)): sweep P: every base path x every pattern x every listed parameter map x 2 caller query sets; sweep Q: every base path x every pattern x 1-4 injection-minded parameter maps x every other caller query set; sweep S: every ordered pair of scheme lists (sequences of length 0-3 over http, https, ws, wss) x 3 hosts x 2 base paths x 2 patterns x 2 query sets; sweep X: every base path x every pattern x the same few parameter maps x 6 caller query sets x 7x7 scheme lists on a fourth host; sweep B: 12 more base paths (static query values written with '/', ':' and '.' unescaped: http://h/p, a/b/, x/../y, ./z, a//b, ../../y; base path segments that are empty, '.' or '..', trailing slash) x every pattern and one pattern with such a query x the same few parameter maps x 6 caller query sets; sweep T: every ordered pair (transport, operation) of the 400 scheme lists of length 0-3 over http, https, ws, wss, HTTP, the empty string and gopher, one fixed request; sweep F (the exported surface): 9 other entry points/variants (Host and BasePath assigned to the exported fields of a Runtime built with decoys and shared by all cases, NewWithClient, Submit, WithOpenTracing().Submit, WithOpenTelemetry().Submit with the URL read at the transport, parameters set by op.AuthInfo or by Runtime.DefaultAuthentication, getters called and their results mutated, method POST) x every base path (the field variant also the 12 of sweep B) x every pattern x the same few parameter maps x 6 caller query sets, each judged by the same reference and compared with the common path. The sweeps are disjoint by construction and no sweep repeats a case, so cases are distinct; an evaluation is one CreateHttpRequest call on the real client (a case with k>=2 parameters is executed k! x repeat times). Non-trivial = a placeholder of the pattern received a value that needs escaping (or is empty, '.' or '..'), or a query name is set at two or more of the three levels, or a scheme list with several entries is offered; a history is non-trivial when two of its steps set the same query name at different levels or with different values, or use the same pattern with different values", !sw.cut && !hist.cut)
 }
